@@ -122,13 +122,20 @@ func TestVerifC18(t *testing.T) {
 		}
 		for k := 0; k < ncont; k++ {
 			c := vfsContentAtom(r, w.repos)
-			switch r.Intn(6) {
+			switch r.Intn(8) {
 			case 0:
 				c = vfsNot(c)
 			case 1:
 				c = vfsOr(c, vfsSetAtom(r, w.repos, branchNames))
 			case 2:
 				c = vfsOr(c, vfsContentAtom(r, w.repos))
+			case 3, 4:
+				// a branch filter under and under or: it contributes to FileMatch.Branches only where the and-node matches
+				ba := vfsSetAtom(r, w.repos, branchNames)
+				for try := 0; try < 6 && !strings.HasPrefix(ba.kind, "branchesrepos"); try++ {
+					ba = vfsSetAtom(r, w.repos, branchNames)
+				}
+				c = vfsOr(vfsAnd(ba, vfsContentAtom(r, w.repos)), c)
 			}
 			children = append(children, c)
 		}
